@@ -13,8 +13,11 @@
    C05_frame_call_general), and by induction over the calls for a whole recording of appended frames (C05_recording_session), also when it starts from
    the declared, still empty object (C05_recording_from_empty); and c3d::parameter on
    any other group keeps it (C05_parameter_elsewhere).  the DECLARATION PHASE is covered from the constructor for every list of names (C05_declaring_keeps_the_agreement,
-   C05_declarations_from_the_constructor).  NOT yet proved: the whole predicate for extensions of a points-only data set, for the column calls and for parameter() on POINT / ANALOG (the rates among them): decided by the check. *)
-From EZ Require Import Base Types Api Proofs_Param Proofs_Guards Spec_Inv Proofs_Inv Proofs_Header Spec_Typed Proofs_Updaters Proofs_ApiSafe Proofs_InvFrame Proofs_InvParam Proofs_Declare Proofs_InvDeclare Float32 Run.
+   C05_declarations_from_the_constructor), setting a rate on an object without data keeps it (C05_rate_keeps_the_agreement), and THE WHOLE
+   SESSION from the constructor — declare, set the rates, record — is one theorem without any hypothesis on an intermediate state
+   (C05_whole_session_from_the_constructor).  NOT yet proved: the whole predicate for extensions of a points-only data set, for the column
+   calls and for the other edits of POINT / ANALOG parameters: decided by the check. *)
+From EZ Require Import Base Types Api Proofs_Param Proofs_Guards Spec_Inv Proofs_Inv Proofs_Header Spec_Typed Proofs_Updaters Proofs_ApiSafe Proofs_InvFrame Proofs_InvParam Proofs_Declare Proofs_InvDeclare Proofs_InvRate Float32 Run.
 Local Open Scope N_scope.
 
 Definition conforming (s : state) (o : op) : Prop :=
@@ -472,3 +475,80 @@ Proof.
   destruct D as (A & _ & _ & _ & C & D & _). split; [exact A|]. split; [exact C|exact D].
 Qed.
 Print Assumptions C05_declarations_nonvacuous.
+
+(* SETTING A RATE (c3d::parameter on POINT or ANALOG with a float parameter named RATE) on an object that holds no frame: the
+   agreement holds again, the mandatory parameters stay well typed, the tree differs from the old one in that parameter only.
+   The two side conditions are 2^64 bounds on (channels x sub-frames announced afterwards). *)
+Theorem C05_rate_keeps_the_agreement : forall f_key f_tosize f_div (f_is_zero : f32 -> bool),
+  (forall x e, f_key x <> Throw e) -> (forall x e, f_tosize x <> Throw e) ->
+  forall G p s s' na,
+  (G = nm_POINT \/ G = nm_ANALOG) -> p_name p = nm_RATE -> kind_ok KFlt1 p = true ->
+  Inv s -> MT (groups s) -> exact (hdr s) -> frames s = [] ->
+  lk_int0 (groups s) nm_ANALOG nm_USED = Some na ->
+  h_nb_analogs (hdr s) * h_byframe (hdr s') < two64 -> na * h_byframe (hdr s') < two64 ->
+  api_parameter f_key f_tosize f_div G p s = ROk tt s' ->
+  Inv s' /\ MT (groups s') /\ exact (hdr s') /\ frames s' = [] /\ pro s' = pro s /\
+  lookup (groups s') G nm_RATE = Ok p /\
+  (forall g n, (g <> G \/ n <> nm_RATE) -> lookup (groups s') g n = lookup (groups s) g n).
+Proof. exact rate_keeps_inv. Qed.
+Print Assumptions C05_rate_keeps_the_agreement.
+
+(* THE WHOLE SESSION FROM THE CONSTRUCTOR, one statement, no hypothesis about any intermediate state: for every list of point
+   names ps, every non-empty list of channel names cs, every POINT:RATE that is not zero and every ANALOG:RATE such that the
+   truncated ratio q is at least 1, and every list of frames that carry the (trimmed) declared names in order with q sub-frames —
+   c3d(); point(p) for p in ps; analog(c) for c in cs; parameter("POINT", rate); parameter("ANALOG", rate); frame(f) for f in fs
+   — if the calls return normally, header, parameters and stored data agree and the data set holds exactly the frames given.
+   (f_tosize (f_div 0 prate) = 0 says that 0 / rate truncates to 0: the float operations are parameters of the model.) *)
+Theorem C05_whole_session_from_the_constructor : forall f_key f_tosize f_div f_is_zero,
+  (forall x e, f_key x <> Throw e) -> (forall x e, f_tosize x <> Throw e) ->
+  forall ps cs pr ar prate arate tp ta q fs s',
+  cs <> [] -> nlen ps < 2147483648 -> nlen cs < 2147483648 ->
+  p_name pr = nm_RATE -> kind_ok KFlt1 pr = true -> values_as_float pr = Ok (prate :: tp) -> f32_is_zero prate = false ->
+  p_name ar = nm_RATE -> kind_ok KFlt1 ar = true -> values_as_float ar = Ok (arate :: ta) ->
+  f_tosize (f_div 0 prate) = Ok 0 -> f_tosize (f_div arate prate) = Ok q -> 1 <= q -> nlen cs * q < two64 ->
+  Forall (fun f => map pt_name (fr_pts f) = map rtrim ps /\ nlen (fr_subs f) = q /\
+                   (forall sf, In sf (fr_subs f) -> map ch_name sf = map rtrim cs)) fs ->
+  nlen fs < 2147483647 ->
+  run_ops f_key f_tosize f_div f_is_zero
+    (map OPoint ps ++ map OAnalog cs ++ [OParam nm_POINT pr; OParam nm_ANALOG ar] ++ map (fun f => OFrame f None) fs) init = ROk tt s' ->
+  Inv s' /\ frames s' = fs.
+Proof. exact declarations_then_rates_then_recording. Qed.
+Print Assumptions C05_whole_session_from_the_constructor.
+
+(* non-vacuity: two points (one padded), one channel, 100 Hz / 200 Hz, two frames of two sub-frames on the executable instance:
+   every hypothesis is met, the calls return normally (evaluated); the agreement and the stored frames come from the theorem *)
+Example C05_whole_session_nonvacuous :
+  let ps := [[97]; [98; 32]] in let cs := [[99]] in
+  let pr := mkParam nm_RATE [] false TFloat [1] [] [1120403456] [] in let ar := mkParam nm_RATE [] false TFloat [1] [] [1128792064] [] in
+  let f1 := mkFrame [mkPoint [97] 1 2 3 4; mkPoint [98] 5 6 7 8] [[mkChan [99] 9]; [mkChan [99] 10]] in
+  let f2 := mkFrame [mkPoint [97] 11 12 13 14; mkPoint [98] 15 16 17 18] [[mkChan [99] 19]; [mkChan [99] 20]] in
+  exists s', run_ops f_key_impl f_tosize_impl f_div_impl f_is_zero_impl
+               (map OPoint ps ++ map OAnalog cs ++ [OParam nm_POINT pr; OParam nm_ANALOG ar] ++ map (fun f => OFrame f None) [f1; f2]) init = ROk tt s' /\
+             Inv s' /\ frames s' = [f1; f2].
+Proof.
+  intros ps cs pr ar f1 f2.
+  destruct (run_ops f_key_impl f_tosize_impl f_div_impl f_is_zero_impl
+              (map OPoint ps ++ map OAnalog cs ++ [OParam nm_POINT pr; OParam nm_ANALOG ar] ++ map (fun f => OFrame f None) [f1; f2]) init) as [[] s'| |] eqn:E;
+    [|vm_compute in E; discriminate|vm_compute in E; discriminate].
+  exists s'. split; [reflexivity|].
+  pose proof (declarations_then_rates_then_recording f_key_impl f_tosize_impl f_div_impl f_is_zero_impl f_key_impl_nothrow f_tosize_impl_nothrow
+            ps cs pr ar 1120403456 1128792064 [] [] 2 [f1; f2] s') as T.
+  apply T; clear T; try exact E.
+  - discriminate.
+  - vm_compute. reflexivity.
+  - vm_compute. reflexivity.
+  - reflexivity.
+  - vm_compute. reflexivity.
+  - reflexivity.
+  - vm_compute. reflexivity.
+  - reflexivity.
+  - vm_compute. reflexivity.
+  - reflexivity.
+  - vm_compute. reflexivity.
+  - vm_compute. reflexivity.
+  - vm_compute. discriminate.
+  - vm_compute. reflexivity.
+  - repeat constructor; try (vm_compute; reflexivity); intros sf [<-|[<-|[]]]; vm_compute; reflexivity.
+  - vm_compute. reflexivity.
+Qed.
+Print Assumptions C05_whole_session_nonvacuous.
